@@ -1,6 +1,7 @@
 package visitor
 
 import (
+	"github.com/graphql-go/graphql/verifhook"
 	"fmt"
 	"github.com/graphql-go/graphql/language/ast"
 	"github.com/graphql-go/graphql/language/typeInfo"
@@ -202,6 +203,7 @@ func Visit(root ast.Node, visitorOpts *VisitorOptions, keyMap KeyMap) interface{
 	// abstract algorithm
 Loop:
 	for {
+		verifhook.Count(verifhook.VisitorLoop)
 		index++
 
 		isLeaving := (len(keys) == index)
